@@ -412,8 +412,13 @@ pub fn analyse(case: &SmastCase, run: &MastRun) -> (Option<Violation>, bool, u64
                             } else if *t > r.deadline {
                                 tx.must_reject = true;
                                 bump("probe.late_response");
+                            } else if *t == r.deadline {
+                                // arrival exactly at the deadline: either the fragment or the time-out wins, and what follows
+                                // for this request depends on it
+                                r.uncertain = true;
+                                outstanding.insert(*src, r);
+                                bump("probe.arrival_ties_with_deadline");
                             }
-                            // arrival exactly at the deadline: either
                         }
                         _ => {
                             tx.must_reject = true;
